@@ -141,6 +141,15 @@ Proof.
   rewrite forallb_forall in H. apply H. exact Hs.
 Qed.
 
+(** the two symmetry theorems on a concrete position (after 1.e4, black to move), computed *)
+Example symmetry_example :
+  let b := updBoard (updBoard startBoard 12 0) 28 6 in
+  fresh16 4 exW exBias true (flipSq 60) (flipBoard b) = fresh16 4 exW exBias false 60 b /\
+  fresh16 4 exW exBias false (flipSq 4) (flipBoard b) = fresh16 4 exW exBias true 4 b /\
+  fresh16 4 exW exBias true (mirrorSq 4) (mirrorBoard b) = fresh16 4 exW exBias true 4 b /\
+  fresh16 4 exW exBias true 4 b <> fresh16 4 exW exBias false 60 b.
+Proof. vm_compute. repeat split; try reflexivity. discriminate. Qed.
+
 (** the symmetric images of the start position are different boards, so the symmetry theorems
     say something: e.g. the flipped board has a black rook where the white one stood *)
 Example flip_nontrivial : flipBoard (updBoard startBoard 12 0) 52 = 0 /\ updBoard startBoard 12 0 52 = 12.
